@@ -959,7 +959,7 @@ namespace awkward {
   template <typename T>
   const ContentPtr
   ListOffsetArrayOf<T>::num(int64_t axis, int64_t depth) const {
-    int64_t posaxis = axis_wrap_if_negative(axis);
+    int64_t posaxis = axis_wrap_if_negative(axis, depth);
     if (posaxis == depth) {
       Index64 out(1);
       out.setitem_at_nowrap(0, length());
@@ -991,7 +991,7 @@ namespace awkward {
   const std::pair<Index64, ContentPtr>
   ListOffsetArrayOf<T>::offsets_and_flattened(int64_t axis,
                                               int64_t depth) const {
-    int64_t posaxis = axis_wrap_if_negative(axis);
+    int64_t posaxis = axis_wrap_if_negative(axis, depth);
     if (posaxis == depth) {
       throw std::invalid_argument(
         std::string("axis=0 not allowed for flatten") + FILENAME(__LINE__));
@@ -1266,7 +1266,7 @@ namespace awkward {
   ListOffsetArrayOf<T>::rpad(int64_t target,
                              int64_t axis,
                              int64_t depth) const {
-    int64_t posaxis = axis_wrap_if_negative(axis);
+    int64_t posaxis = axis_wrap_if_negative(axis, depth);
     if (posaxis == depth) {
       return rpad_axis0(target, false);
     }
@@ -1311,7 +1311,7 @@ namespace awkward {
   ListOffsetArrayOf<T>::rpad_and_clip(int64_t target,
                                       int64_t axis,
                                       int64_t depth) const {
-    int64_t posaxis = axis_wrap_if_negative(axis);
+    int64_t posaxis = axis_wrap_if_negative(axis, depth);
     if (posaxis == depth) {
       return rpad_axis0(target, true);
     }
@@ -1572,7 +1572,7 @@ namespace awkward {
   template <typename T>
   const ContentPtr
   ListOffsetArrayOf<T>::localindex(int64_t axis, int64_t depth) const {
-    int64_t posaxis = axis_wrap_if_negative(axis);
+    int64_t posaxis = axis_wrap_if_negative(axis, depth);
     if (posaxis == depth) {
       return localindex_axis0();
     }
@@ -1614,7 +1614,7 @@ namespace awkward {
         std::string("in combinations, 'n' must be at least 1") + FILENAME(__LINE__));
     }
 
-    int64_t posaxis = axis_wrap_if_negative(axis);
+    int64_t posaxis = axis_wrap_if_negative(axis, depth);
     if (posaxis == depth) {
       return combinations_axis0(n, replacement, recordlookup, parameters);
     }
